@@ -20,10 +20,13 @@ Required(rx, s) ==
 Supplied(rx, x) == \A s \in DOMAIN x : x[s] >= Required(rx, s)
 
 \* propensity vector: stochastic form, volume-scaled when vol, zeroed in safe mode when under-supplied
+\* (the safe interface also clamps a negative rate to 0 - simulator.pyx:573-576 - which matters only
+\* once a state has gone negative, e.g. after a delayed consumption in the delay simulator)
 Props(prog, x, safe, vol, V) ==
     [r \in 1..NRx(prog) |->
         IF safe /\ ~Supplied(prog.rx[r], x) THEN Zero
-        ELSE IF vol THEN StoVol(prog.rx[r].law, XR(x), V) ELSE Sto(prog.rx[r].law, XR(x))]
+        ELSE LET a == IF vol THEN StoVol(prog.rx[r].law, XR(x), V) ELSE Sto(prog.rx[r].law, XR(x))
+             IN IF safe THEN RMax(a, Zero) ELSE a]
 PropsDefined(prog, x, vol, V) == \A r \in 1..NRx(prog) : Defined(prog.rx[r].law, XR(x), IF vol THEN V ELSE One)
 
 Lambda(a) == RSumSeq(a)
@@ -52,6 +55,17 @@ Col(prog, r, delayedToo) == [s \in 1..NS |-> StoichN(prog.rx[r], s) + (IF delaye
 DCol(prog, r) == [s \in 1..NS |-> DStoichN(prog.rx[r], s)]
 AddVec(x, c) == [s \in DOMAIN x |-> x[s] + c[s]]
 ScaleVec(k, c) == [s \in DOMAIN c |-> k * c[s]]
+
+\* ---- bounded dynamics (the quantifier of C05/C06/C10/C11): a sufficient, syntactic condition -
+\* every reaction that has reactants does not increase the total count (zero-order and Hill-type
+\* production may, which gives at most polynomial growth)
+NetTotal(rx) == LET RECURSIVE S(_)
+                    S(s) == IF s = 0 THEN 0 ELSE NetN(rx, s) + S(s - 1)
+                IN S(NS)
+Proportional(law) == law.type \in {"proportionalhillpositive", "proportionalhillnegative"}
+RxBounded(rx) == IF (rx.law.type = "massaction" /\ Len(rx.law.re) >= 1) \/ Proportional(rx.law)
+                 THEN NetTotal(rx) <= 0 ELSE NetTotal(rx) <= 2
+BoundedDynamics(prog) == \A r \in 1..NRx(prog) : RxBounded(prog.rx[r])
 
 \* ---- C06 state predicates
 NonNeg(x) == \A s \in DOMAIN x : x[s] >= 0
